@@ -41,6 +41,9 @@ SPEC = Spec(
         "-0.0 == +0.0 in plain proto3 double fields (the generated `!= 0` test drops it on both codecs)",
     ],
     assumptions=[
+        "payload equality is Go's == / reflect.DeepEqual on the canonical form: nil == empty slice, all-zero id == empty id, and -0.0 == +0.0 "
+        "in plain (non one-of, non packed) proto3 double fields (the sign of such a zero is not preserved by either codec: observation "
+        "`negative_zero_sign_lost`, not a violation); NaNs are NOT identified: protobuf compares NaN bit patterns exactly, JSON up to both-NaN",
         "every encoded (sub)message is shorter than 2^63 bytes (Go int length)",
         "payloads are values of the generated structs reachable through the public pdata API or through a decoder; the API surface is "
         "modelled by the predicate ApiBuilt (no accessor reaches a Deprecated* field; bytes are bytes), checked per run on harness-built payloads",
